@@ -11,7 +11,7 @@ FLOORS = {"ops": 700, "munch": 240, "rulesets": 70, "rctx": 190, "eoi": 40, "cla
 
 
 def c01(ctx, env):
-    env.src(ctx, ["R-WL", "R-EXH", "R-ORDER"])
+    env.src(ctx, ["R-WL", "R-EXH", "R-ORDER", "R-INLINE"])
     env.runtime(ctx, {"R-SUM", "R-PAIR"})
     env.replay_gen(ctx, {"R-SAVED", "P5", "P6", "P9", "TV", "TV-CTX"})
     env.witnesses(ctx, ["munch", "ops", "rctx", "rulesets", "mix"],
@@ -25,6 +25,7 @@ def c02(ctx, env):
 
 
 def c03(ctx, env):
+    env.src(ctx, ["R-OFFSET", "R-SHIFT", "R-INLINE"])
     env.runtime(ctx, {"R-SUM", "R-WHO"})
     env.replay_gen(ctx, {"P7", "P5", "P6", "P9", "R-WHO", "TV"})
     env.witnesses(ctx, ["rulesets", "actions", "mix"], {"TV", "COMPILE", "P7", "P5", "P6", "P9", "R-WHO"}, FLOORS)
@@ -53,6 +54,7 @@ def c07(ctx, env):
 
 
 def c08(ctx, env):
+    env.src(ctx, ["R-OFFSET", "R-SHIFT"])
     env.runtime(ctx, {"R-SUM", "R-WHO"})
     env.replay_gen(ctx, {"P6", "P7", "P9", "R-WHO"})
     env.witnesses(ctx, ["rulesets"], {"COMPILE", "P6", "P7", "P9", "R-WHO"}, FLOORS)
